@@ -29,8 +29,9 @@ RULE = ("(a) in-process: 2-3 tasks per terminal run sdo_read, expedited "
         "index per task) and read; (b) creation window: a second LockFile "
         "is opened at every point between the first opener's O_EXCL create "
         "and its initialising write (os proxy), then both take counters; "
-        "(c) cross-process: 2-3 real processes each perform m locked "
-        "exchanges on one lock file with random sleeps and, in most rounds, "
+        "(c) cross-process: 2-3 real processes, each with one task per "
+        "terminal for two terminals, perform m locked "
+        "exchanges per terminal on one lock file with random sleeps and, in most rounds, "
         "injected delays before and after every pread/pwrite/lockf of the "
         "lock protocol, appending to a shared log. History checker: no other user's request between a "
         "request and the read of its response, counter chain 1..7 with no "
@@ -294,18 +295,24 @@ L.os = OSProxy()
 L.fcntl = FcntlProxy()
 async def main():
     lf = LockFile(path, 1000, 1100)
-    lock = ParallelMailboxLock(lf, 1042)
     log = os.open(path + ".log", os.O_WRONLY | os.O_APPEND | os.O_CREAT)
-    for i in range(m):
-        async with lock:
-            c = lock.next_counter()
-            os.write(log, b"S %%d %%d\n" %% (who, c))
-            if rng.random() < 0.5:
-                time.sleep(rng.random() * 0.002)
+
+    async def user(no):
+        # one task per terminal: a process talks to several terminals
+        lock = ParallelMailboxLock(lf, no)
+        for i in range(m):
+            async with lock:
+                c = lock.next_counter()
+                os.write(log, b"S %%d %%d %%d\n" %% (who, c, no))
+                if rng.random() < 0.5:
+                    time.sleep(rng.random() * 0.002)
+                for _ in range(rng.randint(1, 3)):
+                    await asyncio.sleep(0)
+                os.write(log, b"E %%d %%d %%d\n" %% (who, c, no))
+            if rng.random() < 0.3:
+                time.sleep(rng.random() * 0.001)
             await asyncio.sleep(0)
-            os.write(log, b"E %%d %%d\n" %% (who, c))
-        if rng.random() < 0.3:
-            time.sleep(rng.random() * 0.001)
+    await asyncio.gather(user(1042), user(1043))
 asyncio.run(main())
 '''
 
@@ -336,22 +343,29 @@ def xproc_round(rng, tmpdir, res):
     res.count("xproc_rounds_" + ("with_delays" if delays else "plain"))
     with open(path + ".log") as f:
         lines = [l.split() for l in f.read().splitlines()]
-    overlap = 0
-    cur = None
-    counters = []
     bad = None
-    for l in lines:
-        kind, who, c = l[0], int(l[1]), int(l[2])
-        if kind == "S":
-            if cur is not None and bad is None:
-                bad = ("exclusion", f"process {who} entered while {cur} "
-                       "held the lock")
-            cur = who
-            counters.append(c)
-        else:
-            cur = None
-    switches = sum(1 for a, b in zip(lines, lines[1:])
-                   if a[0] == "E" and b[0] == "S" and a[1] != b[1])
+    chains = {}
+    for no in sorted({l[3] for l in lines}):
+        cur = None
+        counters = chains.setdefault(no, [])
+        for l in lines:
+            if l[3] != no:
+                continue
+            kind, who, c = l[0], int(l[1]), int(l[2])
+            if kind == "S":
+                if cur is not None and bad is None:
+                    bad = ("exclusion", f"terminal {no}: process {who} "
+                           f"entered while {cur} held the lock")
+                cur = who
+                counters.append(c)
+            else:
+                cur = None
+    counters = [c for ch in chains.values() for c in ch]
+    switches = 0
+    for no in chains:
+        ls = [l for l in lines if l[3] == no]
+        switches += sum(1 for a, b in zip(ls, ls[1:])
+                        if a[0] == "E" and b[0] == "S" and a[1] != b[1])
     res.case(desc, nontrivial=switches > 0)
     res.count("xproc_exchanges", len(counters))
     res.count("xproc_owner_switches", switches)
@@ -362,9 +376,11 @@ def xproc_round(rng, tmpdir, res):
                       f"worker failed: {errs[0]}", case=desc)
         return
     if bad is None:
-        why = chain_ok(counters)
-        if why:
-            bad = ("counter", why)
+        for no, ch in chains.items():
+            why = chain_ok(ch)
+            if why:
+                bad = ("counter", f"terminal {no}: {why}")
+                break
     if bad:
         res.violation(f"unexplained:xproc-{bad[0]}", bad[1], case=desc)
 
